@@ -9,7 +9,7 @@ PKG = "network/transport/v2"
 HARNESS = ["network/transport/v2/zz_verif_c07_test.go", "network/transport/v2/zz_verif_c07_gen_test.go",
            "network/transport/v2/zz_verif_c15_test.go", "network/transport/v2/gossip/zz_verif_export_c07.go"]
 
-REQUIRED = ["payload_only_in_payload_msg", "private_payload_release_sound", "decrypt_iff_member", "payload_stored_only_if_hash_matches",
+REQUIRED = ["payload_only_in_payload_msg", "private_payload_release_sound", "decrypt_iff_member", "payload_stored_only_if_hash_matches", "payload_with_transaction_only_if_hash_matches",
             "authn_sound", "tick_and_create_send_no_payload", "nonmember_cipher_gap",
             "fact_payload_query_checks", "fact_payload_finished_nil_guard", "fact_collect_guard", "fact_payload_store_checks", "fact_payload_writers", "fact_authenticate_steps"]
 
